@@ -592,6 +592,12 @@ inv_run([(5, True, [(SEC, "S1", None, None, {}), (SEC, "S2", None, b"\x09", {})]
 inv_run([(0, True, [(PUB, "KE", EC[0], None, {}), (PRIV, "KE", EC[0], None, {}), (PUB, "KF", EC[1], None, {"ec_wrapped": False}), (PRIV, "KF", EC[1], None, {})])],
         {"e": ceremony.ksk_def(EC[0]), "f": ceremony.ksk_def(EC[1])}, "inventory-ec")
 inv_run([(0, True, [(PUB, "KE", EC[0], None, {}), (PRIV, "KE", EC[0], None, {})])], {"e": ceremony.ksk_def(EC[1], label="KE")}, "inventory-ec")
+# an EC KSK whose X coordinate begins with 0x04 (the octet a SEC1 prefix would be), right tag and DS configured: it is that KSK
+for alg_, first_ in ((13, 4), (14, 4), (13, 0)):
+    KX4 = ksrxml.mk_key(P.ec_x_first(alg_, first_), alg=alg_, flags=257, ident=f"KX{first_}A{alg_}")
+    for wrapped_ in (True, False):
+        inv_run([(0, True, [(PUB, KX4["id"], KX4, None, {"ec_wrapped": wrapped_}), (PRIV, KX4["id"], KX4, None, {})])], {"x": ceremony.ksk_def(KX4)}, "inventory-ec-x-first-octet")
+P.save()
 # key tags at the ends of their range: a token key whose tag is 65535, configured with that tag (and the key's DS), and with another tag
 K65535 = ksrxml.mk_key(P.ec_with_tag(13, 257, 65535), alg=13, flags=257, ident="KMAXTAG")
 P.save()
